@@ -18,15 +18,23 @@ CONSTANTS NK,        \* keys are 0..NK-1
           Vals, KIds, \* values and key identities used by inserting operations
           Es,        \* element size (selects the minimum table size)
           MaxB,      \* bound on buckets claimed by the boundedness invariant
-          MaxPa      \* hasher panics are injected at invocation 1..MaxPa of every operation (0 = none)
+          MaxPa,     \* hasher panics are injected at invocation 1..MaxPa of every operation (0 = none)
+          TRem       \* template start states (see Init); {} = only the unallocated table
 
 Keys == 0..(NK - 1)
 VARIABLES t, A, hp, chk
 vars == <<t, A, hp, chk>>
 
 Hashes == [pos : Poss, tag : Tags]
+\* start states: the unallocated table and, for every m in TRem, the table obtained LAWFULLY by inserting all keys and
+\* removing keys 0..m-1 again (full load / tombstone saturation, so that the in-place rehash runs with live elements)
+TEv(op, k) == [op |-> op, t |-> 1, u |-> 0, k |-> k, id |-> 1, v |-> 1, vid |-> 0, n |-> 0, j |-> -1, ks |-> <<>>, r |-> <<>>, y |-> <<>>, pn |-> ""]
+RECURSIVE RunLawful(_, _, _)
+RunLawful(tt, es, plan) == IF es = <<>> THEN tt ELSE RunLawful(MapOp(Head(es), tt, plan, LawfulEnv).t, Tail(es), plan)
+Template(plan, m) == RunLawful(Singleton(Es), [i \in 1..(NK + m) |-> IF i <= NK THEN TEv("insert", i - 1) ELSE TEv("remove", i - NK - 1)], plan)
 Init == /\ hp \in [Keys -> Hashes]
-        /\ t = Singleton(Es) /\ A = {} /\ chk = TRUE
+        /\ t \in {Singleton(Es)} \cup {Template(hp, m) : m \in TRem}
+        /\ A = Elems(t) /\ chk = TRUE
 
 Ev(op, k, id, v, n, ks, r, y) ==
   [op |-> op, t |-> 1, u |-> 0, k |-> k, id |-> id, v |-> v, vid |-> 0, n |-> n, j |-> -1, ks |-> ks, r |-> r, y |-> y, pn |-> ""]
@@ -74,7 +82,7 @@ FaultStep(e, pa) ==
      /\ t' = c.t
      /\ A' = E1
      /\ chk' = /\ KI2(E1) \subseteq KI2(A)
-               /\ c.dr = {x[2] : x \in gone} \ {0}
+               /\ c.dr \ {0} = {x[2] : x \in gone} \ {0}
                /\ (c.t.mask # t.mask => FALSE)                     \* a failed growth never installs the new table
                /\ (ReservePath(t, e) = "resize" => E1 = A)         \* hasher panic while growing into a new allocation
      /\ UNCHANGED hp
